@@ -71,6 +71,17 @@ def model_term(prog: dict[str, Any], data: dict[str, Any], suppress: bool, which
             f"{clf.c_block(prog['main'])} [{clf.c_ns(data)}] {C.cstr('main')})")
 
 
+# Witnesses of the defects repaired in /repo (known_findings.json, status fixed):
+# a fixed entry suppresses nothing, the violation is reported again if it returns.
+FIXED_WITNESSES = [
+    ("case-else-after-silent-when", "{% case x %}{% when 1 %}{% assign y = 1 %}{% else %}E{% endcase %}|{{ y }}", {}, {"x": 1}, "|1"),
+    ("liquid-comment-indented", "{% liquid\ncomment\n\tc x\n\tendcomment\n echo 'a'\n%}", {}, {}, "a"),
+    ("liquid-comment-indented", "{% liquid\n  comment\n  hello\n    comment\n   nested\n  endcomment\n  endcomment\n echo 'a'\n%}", {}, {}, "a"),
+    ("cycle-template-string-identity", "{% cycle \"a${x}\", 'B' %}|{% cycle \"a${x}\", 'B' %}", {}, {"x": 1}, "a1|B"),
+    ("cycle-template-string-identity", "{% include 'p' %}|{% include 'p' %}", {"p": "{% cycle \"${x}\", 'B' %}"}, {"x": 1}, "1|B"),
+]
+
+
 def features(n: Any, acc: set[str]) -> None:
     if isinstance(n, tuple) and n and isinstance(n[0], str):
         acc.add(n[0] if n[0] != "filter" else "filter:" + n[2])
@@ -149,6 +160,13 @@ def main(chk: C.Check, build: C.Build) -> None:
                 samples.append({"source": src, "data": data, "suppress": suppress, "default_trim": trim, "output": o[1]})
         for f in fs:
             feats[f] = feats.get(f, 0) + 1
+
+    for sig, wsrc, wld, wdata, want in FIXED_WITNESSES:
+        got = run_impl(wsrc, wld, wdata, True)
+        evaluations += 1
+        if got != ("T", want):
+            chk.finding("fixed-witness:" + sig, f"a repaired defect is back: {wsrc!r} gave {got}, the documented semantics give {want!r}",
+                        {"source": wsrc, "loader": wld, "data": wdata, "suppress": True, "default_trim": "+", "implementation": got, "expected": want})
 
     # For C01 the Coq interpreter IS the formalised reference semantics (its
     # theorems state the documented laws), so a disagreement is a concrete
